@@ -25,7 +25,43 @@ def build(desc):
     return getattr(dslgen.build_feature(desc, env), 'operable', None) or dslgen.build_feature(desc, env)
 
 
+KIND_NAMES = ['Boolean', 'Integer', 'Float', 'Decimal', 'String', 'Date', 'Timestamp']
+
+
+def kinds(case):
+    """In a FRESH interpreter: instantiate the primitive kinds in the given order (identity must not depend on what
+    already exists in the process), then compare every pair, their composites and fields differing only in the kind."""
+    import json
+
+    from harness import core
+
+    code = (
+        'import sys, json, pickle\n'
+        'from forml.io import dsl\n'
+        'order = json.loads(sys.argv[1])\n'
+        'objs = {n: getattr(dsl, n)() for n in order}\n'
+        'again = {n: getattr(dsl, n)() for n in reversed(order)}\n'
+        'names = sorted(order)\n'
+        'out = {"cls": {n: type(objs[n]).__name__ for n in names},\n'
+        '       "eq": {a: [b for b in names if objs[a] == objs[b]] for a in names},\n'
+        '       "again": {a: [b for b in names if again[a] == objs[b]] for a in names},\n'
+        '       "hash": {a: [b for b in names if hash(objs[a]) == hash(objs[b])] for a in names},\n'
+        '       "keys": len({objs[n]: 1 for n in names}),\n'
+        '       "array": {a: [b for b in names if dsl.Array(objs[a]) == dsl.Array(objs[b])] for a in names},\n'
+        '       "field": {a: [b for b in names if dsl.Field(objs[a], name="f") == dsl.Field(objs[b], name="f")] for a in names},\n'
+        '       "pickle": {a: [b for b in names if pickle.loads(pickle.dumps(objs[a])) == objs[b]] for a in names}}\n'
+        'print(json.dumps(out))\n'
+    )
+    res = subprocess.run(['/venv/bin/python', '-W', 'ignore', '-c', code, json.dumps(case['order'])], capture_output=True, text=True,
+                         env=core.impl_env({'PYTHONHASHSEED': str(case.get('hashseed', 0))}), cwd=str(core.ROOT), timeout=300)
+    if res.returncode:
+        return {'error': f'child failed: {res.stderr[-300:]}'}
+    return json.loads(res.stdout.strip().splitlines()[-1])
+
+
 def observe(case):
+    if 'order' in case:
+        return kinds(case)
     try:
         # unrelated DSL objects created first: identity must not depend on what else exists in the process
         for extra in case.get('noise', []):
